@@ -18,6 +18,7 @@ import (
 	"sort"
 	"strings"
 	"testing"
+	"time"
 
 	ipfslog "berty.tech/go-ipfs-log"
 	"github.com/libp2p/go-libp2p/core/crypto"
@@ -31,7 +32,7 @@ type c04world struct {
 	ctx  context.Context
 	node *vNode
 
-	keys, meta, seed, group, cred vIDs
+	keys, meta, seed, group, cred, alias vIDs
 	pub                           map[uint64]crypto.PubKey
 	groupPK                       map[uint64][]byte
 }
@@ -100,6 +101,8 @@ func (w *c04world) evCoq(l ipfslog.Log, e ipfslog.Entry, g *protocoltypes.Group)
 		return fmt.Sprintf("(EInit %d)", w.keyID(x.MemberPk))
 	case *protocoltypes.AccountVerifiedCredentialRegistered:
 		return fmt.Sprintf("(ECred %d)", w.cred.id(x.Identifier))
+	case *protocoltypes.ContactAliasKeyAdded:
+		return fmt.Sprintf("(EAlias %d %d)", w.keyID(x.DevicePk), w.alias.id(string(x.AliasPk)))
 	}
 	return fmt.Sprintf("(ENoop %d)", int(me.Metadata.EventType))
 }
@@ -202,18 +205,26 @@ func (w *c04world) observe(ms *MetadataStore, q c04queries) string {
 
 // a writing device: its replica, its store, and the successive contents of its log
 type c04dev struct {
-	r     *vReplica
-	ms    *MetadataStore
-	own   uint64
-	snaps []c04snap
+	r         *vReplica
+	ms        *MetadataStore
+	own       uint64
+	ownMember uint64
+	snaps     []c04snap
 }
 
 func (d *c04dev) snap() { d.snaps = append(d.snaps, c04snapshot(d.ms)) }
+func (d *c04dev) lastSnap() c04snap {
+	if len(d.snaps) == 0 {
+		return nil
+	}
+	return d.snaps[len(d.snaps)-1]
+}
 
 type c04history struct {
-	desc  []string
-	devs  []*c04dev
-	group *protocoltypes.Group
+	desc    []string
+	devs    []*c04dev
+	group   *protocoltypes.Group
+	contact bool // a contact group: the alias keys are observed too
 }
 
 func (w *c04world) must(_ any, err error) {}
@@ -406,16 +417,149 @@ func (w *c04world) multiHistory(rng *rand.Rand, n int) *c04history {
 	return h
 }
 
+// contactHistory: two accounts (the second with two devices) in the contact group they share:
+// device announcements, alias keys (ContactSendAliasKey), secrets, payloads, synchronisations.
+// Nothing forces a device to announce itself before it publishes its alias key.
+func (w *c04world) contactHistory(rng *rand.Rand, n int) *c04history {
+	x := w.node.newAccount()
+	y := w.node.newAccount()
+	y2 := w.node.newDevice(y)
+	ysk, err := y.ss.GetAccountPrivateKey()
+	if err != nil {
+		w.t.Fatal(err)
+	}
+	g, err := x.ss.GetGroupForContact(ysk.GetPublic())
+	if err != nil {
+		w.t.Fatal(err)
+	}
+	h := &c04history{group: g, contact: true}
+	var members []crypto.PubKey
+	for _, r := range []*vReplica{x, y, y2} {
+		ms := r.openMeta(g)
+		raw, _ := ms.memberDevice.Device().Raw()
+		mraw, _ := ms.memberDevice.Member().Raw()
+		members = append(members, ms.memberDevice.Member())
+		h.devs = append(h.devs, &c04dev{r: r, ms: ms, own: w.keyID(raw), ownMember: w.keyID(mraw)})
+	}
+	salt := 0
+	for i := 0; i < n; i++ {
+		di := rng.Intn(3)
+		d := h.devs[di]
+		ctx := w.ctx
+		var err error
+		var name string
+		var op any
+		salt++
+		switch k := rng.Intn(9); k {
+		case 0, 1:
+			name = "add-device"
+			op, err = d.ms.AddDeviceToGroup(ctx)
+			if err == nil && op == nil {
+				continue
+			}
+		case 2, 3, 4:
+			name = "alias-key"
+			op, err = d.ms.ContactSendAliasKey(ctx)
+		case 5:
+			mi := rng.Intn(3)
+			name = fmt.Sprintf("secret-to-%d", mi)
+			op, err = d.ms.SendSecret(ctx, members[mi])
+		case 6:
+			name = "app-metadata"
+			op, err = d.ms.SendAppMetadata(ctx, []byte(fmt.Sprintf("payload-%d", salt)))
+		default:
+			oi := rng.Intn(3)
+			if oi == di {
+				continue
+			}
+			o := h.devs[oi]
+			w.deliverIndexed(o.ms, d.ms.OpLog().Heads().Slice()...)
+			o.snap()
+			h.desc = append(h.desc, fmt.Sprintf("%d->%d:sync", d.own, o.own))
+			continue
+		}
+		_ = op
+		// the entry is in the log even when the index update reported an error (alias key of a device
+		// not announced yet): the operation counts
+		if err == nil || name == "alias-key" || len(c04snapshot(d.ms)) > len(d.lastSnap()) {
+			d.snap()
+			h.desc = append(h.desc, fmt.Sprintf("%d:%s", d.own, name))
+		}
+	}
+	return h
+}
+
+// deliverIndexed: like vDeliver, for logs on which UpdateIndex may return an error (the alias key of
+// a device that is not announced yet): go-orbit-db then emits no EventReplicated, so completion is
+// read from the index itself - every entry of the log is in handledEvents, which UpdateIndex fills
+// under the lock it holds until the post-index action has run.
+func (w *c04world) deliverIndexed(ms *MetadataStore, heads ...ipfslog.Entry) {
+	missing := false
+	for _, h := range heads {
+		if !vHas(ms.OpLog(), h) {
+			missing = true
+		}
+	}
+	if !missing {
+		return
+	}
+	if err := ms.Sync(w.ctx, heads); err != nil {
+		w.t.Fatal(err)
+	}
+	idx := ms.Index().(*metadataStoreIndex)
+	deadline := time.Now().Add(20 * time.Second)
+	for {
+		done := true
+		for _, h := range heads {
+			if !vHas(ms.OpLog(), h) {
+				done = false
+			}
+		}
+		if done {
+			idx.lock.RLock()
+			for _, e := range ms.OpLog().GetEntries().Slice() {
+				if _, ok := idx.handledEvents[e.GetHash().String()]; !ok {
+					done = false
+				}
+			}
+			idx.lock.RUnlock()
+		}
+		if done {
+			return
+		}
+		if time.Now().After(deadline) {
+			w.t.Fatalf("delivery did not complete")
+		}
+		time.Sleep(2 * time.Millisecond)
+	}
+}
+
+// aliasObs reads the alias keys of a contact group from the index.
+func (w *c04world) aliasObs(ms *MetadataStore) (bool, string, string) {
+	idx := ms.Index().(*metadataStoreIndex)
+	idx.lock.RLock()
+	defer idx.lock.RUnlock()
+	other := "None"
+	if len(idx.otherAliasKey) != 0 {
+		other = fmt.Sprintf("(Some %d)", w.alias.id(string(idx.otherAliasKey)))
+	}
+	return idx.ownAliasKeySent, other, fmt.Sprintf("sent=%v other=%s", idx.ownAliasKeySent, other)
+}
+
 // deliver the union of the writers' logs to a fresh replica (same device identity as [like]),
 // following plan: a list of steps, each a list of entries handed over as heads.
 func (w *c04world) runPlan(out *vharness.Out, kind string, h *c04history, like *c04dev, plan [][]ipfslog.Entry, planDesc string,
-	ranks c04ranks, ev map[string]string, q c04queries, want string, reopenAt int) {
+	ranks c04ranks, ev map[string]string, q c04queries, want string, reopenAt int, wantAlias string) {
 	r := w.node.replicaWith(like.r.ss)
 	ms := r.openMeta(h.group)
 	defer func() { ms.Close(); r.db.Close() }()
 	var snaps []c04snap
 	for i, step := range plan {
-		vDeliver(w.ctx, w.t, ms, step...)
+		if h.contact {
+			w.deliverIndexed(ms, step...)
+		} else {
+			vDeliver(w.ctx, w.t, ms, step...)
+		}
 		snaps = append(snaps, c04snapshot(ms))
 		if i == reopenAt {
 			if err := ms.Close(); err != nil {
@@ -426,7 +570,23 @@ func (w *c04world) runPlan(out *vharness.Out, kind string, h *c04history, like *
 		}
 		obs := w.observe(ms, q)
 		ok, note := true, ""
-		if i == len(plan)-1 && obs != want {
+		if h.contact {
+			sent, other, txt := w.aliasObs(ms)
+			obs += " | " + txt
+			out.Emit(vharness.Case{
+				Kind: kind + "-alias",
+				Coq:  fmt.Sprintf("CAlias %d %d %s %v %s", like.own, like.ownMember, w.logsCoq(snaps, ranks, ev), sent, other),
+				Key:  fmt.Sprintf("alias|%v|%s|%d|%d", h.desc, planDesc, i, reopenAt), Nontrivial: strings.Contains(txt, "Some") || sent,
+				OracleOK: true,
+				Replay: map[string]any{"history": h.desc, "delivery": planDesc, "step": i, "reopen_after_step": reopenAt, "alias": txt},
+			})
+			obs = strings.TrimSuffix(obs, " | "+txt)
+			if i == len(plan)-1 && txt != wantAlias {
+				ok = false
+				note = fmt.Sprintf("history %v: a replica that received the same entries (%s) reports other alias keys (%s) than the replica that got them in one batch (%s)", h.desc, planDesc, txt, wantAlias)
+			}
+		}
+		if ok && i == len(plan)-1 && obs != want {
 			ok = false
 			note = fmt.Sprintf("history %v: a replica that received the same entries (%s) reports a different state than the replica that got them in one batch: %s", h.desc, planDesc, c04firstDiff(want, obs))
 		}
@@ -531,6 +691,15 @@ func (w *c04world) explore(out *vharness.Out, kind string, rng *rand.Rand, h *c0
 			Coq:  fmt.Sprintf("CIdx %d %s %s %s %s %s %s", d.own, w.logsCoq(d.snaps, ranks, ev), vharness.Ns(q.pks), vharness.Ns(q.groups), vharness.Ns(q.devs), vharness.Ns(q.members), obs),
 			Key:  fmt.Sprintf("%v|writer %d", h.desc, d.own), Nontrivial: len(d.snaps) >= 3, OracleOK: true,
 		})
+		if h.contact {
+			sent, other, txt := w.aliasObs(d.ms)
+			out.Emit(vharness.Case{
+				Kind: kind + "-alias-writer",
+				Coq:  fmt.Sprintf("CAlias %d %d %s %v %s", d.own, d.ownMember, w.logsCoq(d.snaps, ranks, ev), sent, other),
+				Key:  fmt.Sprintf("alias|%v|writer %d", h.desc, d.own), Nontrivial: sent || other != "None", OracleOK: true,
+				Replay: map[string]any{"history": h.desc, "writer": d.own, "alias": txt},
+			})
+		}
 	}
 	// heads of the union
 	isNext := map[string]bool{}
@@ -549,8 +718,16 @@ func (w *c04world) explore(out *vharness.Out, kind string, rng *rand.Rand, h *c0
 		// reference: everything in one batch
 		ref := w.node.replicaWith(like.r.ss)
 		rms := ref.openMeta(h.group)
-		vDeliver(w.ctx, w.t, rms, heads...)
+		if h.contact {
+			w.deliverIndexed(rms, heads...)
+		} else {
+			vDeliver(w.ctx, w.t, rms, heads...)
+		}
 		want := w.observe(rms, q)
+		wantAlias := ""
+		if h.contact {
+			_, _, wantAlias = w.aliasObs(rms)
+		}
 		rms.Close()
 		ref.db.Close()
 
@@ -565,17 +742,17 @@ func (w *c04world) explore(out *vharness.Out, kind string, rng *rand.Rand, h *c0
 		for i := range ident {
 			ident[i] = i
 		}
-		w.runPlan(out, kind, h, like, [][]ipfslog.Entry{heads}, "one batch", ranks, ev, q, want, -1)
-		w.runPlan(out, kind, h, like, [][]ipfslog.Entry{heads}, "one batch, reopened", ranks, ev, q, want, 0)
-		w.runPlan(out, kind, h, like, single(ident), "one by one in log order", ranks, ev, q, want, -1)
+		w.runPlan(out, kind, h, like, [][]ipfslog.Entry{heads}, "one batch", ranks, ev, q, want, -1, wantAlias)
+		w.runPlan(out, kind, h, like, [][]ipfslog.Entry{heads}, "one batch, reopened", ranks, ev, q, want, 0, wantAlias)
+		w.runPlan(out, kind, h, like, single(ident), "one by one in log order", ranks, ev, q, want, -1, wantAlias)
 		rev := make([]int, len(all))
 		for i := range rev {
 			rev[i] = len(all) - 1 - i
 		}
-		w.runPlan(out, kind, h, like, single(rev), "newest first", ranks, ev, q, want, -1)
+		w.runPlan(out, kind, h, like, single(rev), "newest first", ranks, ev, q, want, -1, wantAlias)
 		if len(all) <= 4 {
 			c04perms(len(all), func(p []int) {
-				w.runPlan(out, kind, h, like, single(p), fmt.Sprint("order ", p), ranks, ev, q, want, -1)
+				w.runPlan(out, kind, h, like, single(p), fmt.Sprint("order ", p), ranks, ev, q, want, -1, wantAlias)
 			})
 		}
 		for k := 0; k < nrandom; k++ {
@@ -598,7 +775,7 @@ func (w *c04world) explore(out *vharness.Out, kind string, rng *rand.Rand, h *c0
 			if rng.Intn(2) == 0 {
 				reopen = rng.Intn(len(plan))
 			}
-			w.runPlan(out, kind, h, like, plan, fmt.Sprint("batches ", p, " split ", len(plan)), ranks, ev, q, want, reopen)
+			w.runPlan(out, kind, h, like, plan, fmt.Sprint("batches ", p, " split ", len(plan)), ranks, ev, q, want, reopen, wantAlias)
 		}
 	}
 	for _, d := range h.devs {
@@ -624,7 +801,9 @@ func TestVerifC04(t *testing.T) {
 		if i%4 == 0 {
 			n = 2 + rng.Intn(3) // small histories: every delivery order
 		}
-		if i%3 == 2 {
+		if i%5 == 1 {
+			w.explore(out, "contact", rng, w.contactHistory(rng, n+2), 3)
+		} else if i%3 == 2 {
 			w.explore(out, "multi-member", rng, w.multiHistory(rng, n+2), 3)
 		} else {
 			w.explore(out, "account", rng, w.accountHistory(rng, n), 3)
